@@ -731,6 +731,26 @@ def check_calls(fn):
     return [t for _, _, t in sorted(out)]
 
 
+def cache_reads(cls):
+    """the model's own dictionaries `_create_cache` looks at, directly or through calls on `self` (sorted)"""
+    meths = {n.name: n for n in cls.body if isinstance(n, ast.FunctionDef)}
+    if "_create_cache" not in meths:
+        raise Unsupported("_create_cache not found")
+    seen, todo, reads = set(), ["_create_cache"], set()
+    while todo:
+        f = todo.pop()
+        if f in seen:
+            continue
+        seen.add(f)
+        for n in ast.walk(meths[f]):
+            if _is_self_attr(n):
+                if n.attr in CONTAINERS:
+                    reads.add(n.attr)
+                elif n.attr in meths:
+                    todo.append(n.attr)
+    return sorted(reads)
+
+
 def helper_bodies(tree, cls):
     """normalised bodies of the private helpers the model's `insertId`, `removeId`, `checkNewIds`, `checkKnown`,
     `scaledValue` and `inval` are written after (the `@_invalidate_cache` wrapper included)"""
@@ -787,7 +807,7 @@ def _lstr(x):
     return '"' + x.replace("\\", "\\\\").replace('"', '\\"') + '"'
 
 
-def render(rows, eqf, arity_body, chain, surf=None, live=(), helpers=()) -> str:
+def render(rows, eqf, arity_body, chain, surf=None, live=(), helpers=(), creads=()) -> str:
     names = [r["name"] for r in rows]
     L = []
     L.append("-- GENERATED by translate/c03.py from src/mxlpy/model.py (class Model); do not edit")
@@ -889,6 +909,9 @@ def render(rows, eqf, arity_body, chain, surf=None, live=(), helpers=()) -> str:
     L.append(",\n".join(f"  ({_lstr(r['name'])}, [" + ", ".join(_lstr(x) for x in r["body"]) + "])"
                         for r in rows if r["name"].endswith("_surrogate")) + "]")
     L.append("")
+    L.append("/-- the model's own dictionaries `_create_cache` reads, directly or through calls on `self` -/")
+    L.append(f"def cacheReads : List String := {_strs(creads)}")
+    L.append("")
     L.append("/-- dataclass fields of `Model` that the generated `__eq__` compares (no `compare=False`) -/")
     L.append(f"def eqFields : List String := {_strs(eqf)}")
     L.append("")
@@ -948,7 +971,7 @@ def generate(repo: Path, outdir: Path) -> None:
     tree, cls = _model_class(src)
     surf, live = surface(cls, {r["name"] for r in rows})
     text = render(rows, eq_fields(cls), check_function_arity(tree), arity_checked(cls), surf, live,
-                  helper_bodies(tree, cls))
+                  helper_bodies(tree, cls), cache_reads(cls))
     outdir.mkdir(parents=True, exist_ok=True)
     out = outdir / "C03Mutators.lean"
     if not out.exists() or hashlib.sha1(out.read_bytes()).hexdigest() != hashlib.sha1(text.encode()).hexdigest():
